@@ -168,3 +168,18 @@ def relayout(x, k):
         big[sl] = x
         return big[sl]
     return x
+
+
+def vary_seq(seq, k):
+    """The same integer sequence handed over as another container type: list, tuple, NumPy
+    int64 array, list of NumPy integers (None stays None)."""
+    if seq is None:
+        return None
+    k = int(k) % 4
+    if k == 1:
+        return tuple(int(v) for v in seq)
+    if k == 2:
+        return np.asarray(seq, dtype=np.int64)
+    if k == 3:
+        return [np.int64(v) for v in seq]
+    return [int(v) for v in seq]
